@@ -12,8 +12,8 @@ import (
 	"verif/harness/hlib"
 )
 
-// engine "inter" (C08 b): {"src": latin1, "langs": [...], "cont": [line numbers that end in a
-// backslash-newline continuation, from the renderer]}
+// engine "inter" (C08 b): {"items": [{"src": latin1, "cont": [line numbers that end in a backslash-newline
+// continuation, from the renderer], "stops": bool} ...], "langs": [...]}
 // For every variant: feed src to the real Parser.InteractiveSeq through a reader that hands over
 // exactly one line per Read (what a blocking pipe delivers when the writer types line by line),
 // record the externally observable events
@@ -87,6 +87,7 @@ type interFail struct {
 	Kind   string `json:"kind"`
 	Detail string `json:"detail"`
 	Note   string `json:"note,omitempty"`
+	Item   int    `json:"item"`
 }
 
 type interTrace struct {
@@ -98,6 +99,7 @@ type interTrace struct {
 	Stop        int     `json:"stop"`
 	Ev          [][]int `json:"ev"`
 	Unannotated string  `json:"unannotated,omitempty"`
+	Item        int     `json:"item"`
 }
 
 func parseWith(src []byte, lang syntax.LangVariant, opts ...syntax.ParserOption) (*syntax.File, error) {
@@ -106,162 +108,187 @@ func parseWith(src []byte, lang syntax.LangVariant, opts ...syntax.ParserOption)
 }
 
 func interEngine(raw json.RawMessage, _ []string) (any, error) {
-	var v struct {
-		Src   string   `json:"src"`
+	var job struct {
+		Items []struct {
+			Src   string `json:"src"`
+			Cont  []int  `json:"cont"`
+			Stops bool   `json:"stops"` // also: for every k, a consumer that returns false from its k-th callback
+		} `json:"items"` // one program under several layouts
 		Langs []string `json:"langs"`
-		Cont  []int    `json:"cont"`
-		Stops bool     `json:"stops"` // also: for every k, a consumer that returns false from its k-th callback
 	}
-	if err := json.Unmarshal(raw, &v); err != nil {
+	if err := json.Unmarshal(raw, &job); err != nil {
 		return nil, err
-	}
-	src := hlib.Unlatin1(v.Src)
-	lines := splitLines(src)
-	cont := map[int]bool{}
-	for _, c := range v.Cont {
-		cont[c] = true
 	}
 	var fails []interFail
 	var traces []interTrace
-	for _, ln := range v.Langs {
-		lang := hlib.LangOf(ln)
-		full, err := parseWith(src, lang, syntax.KeepComments(true))
-		if err != nil {
-			fails = append(fails, interFail{Lang: ln, Kind: "parse-error", Detail: err.Error()})
-			continue
+	for item, v := range job.Items {
+		src := hlib.Unlatin1(v.Src)
+		lines := splitLines(src)
+		cont := map[int]bool{}
+		for _, c := range v.Cont {
+			cont[c] = true
 		}
-		tr := interTrace{Lang: ln, Total: len(full.Stmts)}
-		// ---- annotation
-		byPos := func(off int) (n int) {
-			for _, s := range full.Stmts {
-				if int(s.End().Offset()) <= off {
-					n++
+		nf, nt := len(fails), len(traces)
+		for _, ln := range job.Langs {
+			lang := hlib.LangOf(ln)
+			full, err := parseWith(src, lang, syntax.KeepComments(true))
+			if err != nil {
+				fails = append(fails, interFail{Lang: ln, Kind: "parse-error", Detail: err.Error()})
+				continue
+			}
+			tr := interTrace{Lang: ln, Total: len(full.Stmts)}
+			// ---- annotation
+			byPos := func(off int) (n int) {
+				for _, s := range full.Stmts {
+					if int(s.End().Offset()) <= off {
+						n++
+					}
+				}
+				return n
+			}
+			dash := dashHdocLines(full)
+			off := 0
+			for i, l := range lines {
+				off += len(l)
+				tr.Dash = append(tr.Dash, b2i(dash[i+1]))
+				if cont[i+1] {
+					// a continuation line (the renderer says so): the statement it belongs to ends later,
+					// whatever a parser makes of the prefix taken as a whole file
+					tr.Open = append(tr.Open, 1)
+					tr.Done = append(tr.Done, byPos(off))
+					continue
+				}
+				pf, perr := parseWith(src[:off], lang, syntax.KeepComments(true))
+				switch {
+				case perr == nil:
+					if len(pf.Stmts) != byPos(off) {
+						tr.Unannotated = fmt.Sprintf("line %d: prefix has %d statements, %d end before it in the whole parse", i+1, len(pf.Stmts), byPos(off))
+					}
+					tr.Open = append(tr.Open, 0)
+					tr.Done = append(tr.Done, len(pf.Stmts))
+				case syntax.IsIncomplete(perr):
+					// the error points into the unfinished statement: everything that ends before
+					// that point is finished (a statement's End does not cover its here-document
+					// bodies, so the end of the prefix cannot be used here)
+					at := off
+					var pe syntax.ParseError
+					if errors.As(perr, &pe) && pe.Pos.IsValid() {
+						at = int(pe.Pos.Offset())
+					}
+					tr.Open = append(tr.Open, 1)
+					tr.Done = append(tr.Done, byPos(at))
+				default:
+					tr.Unannotated = fmt.Sprintf("line %d: prefix fails with a complete error: %v", i+1, perr)
+					tr.Open = append(tr.Open, 0)
+					tr.Done = append(tr.Done, byPos(off))
 				}
 			}
-			return n
-		}
-		dash := dashHdocLines(full)
-		off := 0
-		for i, l := range lines {
-			off += len(l)
-			tr.Dash = append(tr.Dash, b2i(dash[i+1]))
-			pf, perr := parseWith(src[:off], lang, syntax.KeepComments(true))
-			switch {
-			case perr == nil && !cont[i+1]:
-				if len(pf.Stmts) != byPos(off) {
-					tr.Unannotated = fmt.Sprintf("line %d: prefix has %d statements, %d end before it in the whole parse", i+1, len(pf.Stmts), byPos(off))
+			// The number of finished statements cannot decrease.  Where the estimate for an OPEN line is
+		// too high (a statement whose here-document body is still being read ends, by its End(),
+		// before the body), a later line corrects it: take the minimum over the rest of the file.
+		for i := len(tr.Done) - 2; i >= 0; i-- {
+			if tr.Done[i] > tr.Done[i+1] {
+				if tr.Open[i] == 0 && tr.Unannotated == "" {
+					tr.Unannotated = fmt.Sprintf("line %d: %d statements finished, but only %d after the next line", i+1, tr.Done[i], tr.Done[i+1])
 				}
-				tr.Open = append(tr.Open, 0)
-				tr.Done = append(tr.Done, len(pf.Stmts))
-			case perr == nil:
-				// a continuation line: the statement it belongs to ends later
-				tr.Open = append(tr.Open, 1)
-				tr.Done = append(tr.Done, byPos(off))
-			case syntax.IsIncomplete(perr):
-				// the error points into the unfinished statement: everything that ends before
-				// that point is finished (a statement's End does not cover its here-document
-				// bodies, so the end of the prefix cannot be used here)
-				at := off
-				var pe syntax.ParseError
-				if errors.As(perr, &pe) && pe.Pos.IsValid() {
-					at = int(pe.Pos.Offset())
-				}
-				tr.Open = append(tr.Open, 1)
-				tr.Done = append(tr.Done, byPos(at))
-			default:
-				tr.Unannotated = fmt.Sprintf("line %d: prefix fails with a complete error: %v", i+1, perr)
-				tr.Open = append(tr.Open, 0)
-				tr.Done = append(tr.Done, byPos(off))
+				tr.Done[i] = tr.Done[i+1]
 			}
 		}
 		// ---- the real thing
-		type runRes struct {
-			ev        [][]int
-			delivered []*syntax.Stmt
-			ncb       int
-			errText   string
-			panicText string
-		}
-		run := func(stop int) (r runRes) {
-			defer func() {
-				if e := recover(); e != nil {
-					r.panicText = panicText(e)
-				}
-			}()
-			p := syntax.NewParser(syntax.Variant(lang), syntax.KeepComments(true))
-			rd := &lineReader{lines: lines, ev: &r.ev}
-			for stmts, err := range p.InteractiveSeq(rd) {
-				inc := p.Incomplete()
-				r.ev = append(r.ev, []int{1, len(stmts), b2i(inc), b2i(err != nil)})
-				if err != nil {
-					r.errText = err.Error()
-					break
-				}
-				if !inc {
-					// the slice is reused by the parser after the callback returns: copy now
-					r.delivered = append(r.delivered, stmts...)
-				}
-				r.ncb++
-				if stop > 0 && r.ncb >= stop {
-					break
-				}
+			type runRes struct {
+				ev        [][]int
+				delivered []*syntax.Stmt
+				ncb       int
+				errText   string
+				panicText string
 			}
-			return r
-		}
-		check := func(r runRes, stop int) {
-			tag := ""
-			if stop > 0 {
-				tag = fmt.Sprintf(" (consumer stops at callback %d)", stop)
-			}
-			if r.panicText != "" {
-				where := "after the end of input"
-				if stop > 0 && len(r.ev) > 0 {
-					last := r.ev[len(r.ev)-1]
-					where = "consumer stopped in a callback for finished statements"
-					if last[0] == 1 && last[2] == 1 {
-						where = "consumer stopped in an Incomplete callback"
-					} else if last[0] == 1 && last[1] == 0 {
-						where = "consumer stopped in an empty callback"
+			run := func(stop int) (r runRes) {
+				defer func() {
+					if e := recover(); e != nil {
+						r.panicText = panicText(e)
+					}
+				}()
+				p := syntax.NewParser(syntax.Variant(lang), syntax.KeepComments(true))
+				rd := &lineReader{lines: lines, ev: &r.ev}
+				for stmts, err := range p.InteractiveSeq(rd) {
+					inc := p.Incomplete()
+					r.ev = append(r.ev, []int{1, len(stmts), b2i(inc), b2i(err != nil)})
+					if err != nil {
+						r.errText = err.Error()
+						break
+					}
+					if !inc {
+						// the slice is reused by the parser after the callback returns: copy now
+						r.delivered = append(r.delivered, stmts...)
+					}
+					r.ncb++
+					if stop > 0 && r.ncb >= stop {
+						break
 					}
 				}
-				fails = append(fails, interFail{Lang: ln, Kind: "panic", Detail: where + ": " + r.panicText, Note: tag})
-				return
+				return r
 			}
-			if r.errText != "" {
-				fails = append(fails, interFail{Lang: ln, Kind: "interactive-error", Detail: r.errText, Note: tag})
-			}
-			if stop == 0 && len(r.delivered) != len(full.Stmts) {
-				fails = append(fails, interFail{Lang: ln, Kind: "delivered-count", Detail: fmt.Sprintf("%d delivered, Parse has %d", len(r.delivered), len(full.Stmts))})
-				return
-			}
-			for i := range r.delivered {
-				if i >= len(full.Stmts) || !reflect.DeepEqual(r.delivered[i], full.Stmts[i]) {
-					d := "more statements than Parse has"
-					if i < len(full.Stmts) {
-						d = sigTreeDiff(AbsPos(full.Stmts[i]), AbsPos(r.delivered[i]))
+			check := func(r runRes, stop int) {
+				tag := ""
+				if stop > 0 {
+					tag = fmt.Sprintf(" (consumer stops at callback %d)", stop)
+				}
+				if r.panicText != "" {
+					where := "after the end of input"
+					if stop > 0 && len(r.ev) > 0 {
+						last := r.ev[len(r.ev)-1]
+						where = "consumer stopped in a callback for finished statements"
+						if last[0] == 1 && last[2] == 1 {
+							where = "consumer stopped in an Incomplete callback"
+						} else if last[0] == 1 && last[1] == 0 {
+							where = "consumer stopped in an empty callback"
+						}
 					}
-					fails = append(fails, interFail{Lang: ln, Kind: "delivered-differs", Detail: d, Note: tag})
-					break
+					fails = append(fails, interFail{Lang: ln, Kind: "panic", Detail: where + ": " + r.panicText, Note: tag})
+					return
+				}
+				if r.errText != "" {
+					fails = append(fails, interFail{Lang: ln, Kind: "interactive-error", Detail: r.errText, Note: tag})
+				}
+				if stop == 0 && len(r.delivered) != len(full.Stmts) {
+					fails = append(fails, interFail{Lang: ln, Kind: "delivered-count", Detail: fmt.Sprintf("%d delivered, Parse has %d", len(r.delivered), len(full.Stmts))})
+					return
+				}
+				for i := range r.delivered {
+					if i >= len(full.Stmts) || !reflect.DeepEqual(r.delivered[i], full.Stmts[i]) {
+						d := "more statements than Parse has"
+						if i < len(full.Stmts) {
+							d = sigTreeDiff(AbsPos(full.Stmts[i]), AbsPos(r.delivered[i]))
+						}
+						fails = append(fails, interFail{Lang: ln, Kind: "delivered-differs", Detail: d, Note: tag})
+						break
+					}
+				}
+			}
+			r0 := run(0)
+			check(r0, 0)
+			tr.Ev = r0.ev
+			if r0.panicText != "" {
+				tr.Unannotated = "panic"
+			}
+			traces = append(traces, tr)
+			if v.Stops {
+				for k := 1; k <= r0.ncb; k++ {
+					rk := run(k)
+					check(rk, k)
+					if rk.panicText == "" {
+						ts := tr
+						ts.Ev, ts.Stop = rk.ev, k
+						traces = append(traces, ts)
+					}
 				}
 			}
 		}
-		r0 := run(0)
-		check(r0, 0)
-		tr.Ev = r0.ev
-		if r0.panicText != "" {
-			tr.Unannotated = "panic"
+		for i := nf; i < len(fails); i++ {
+			fails[i].Item = item
 		}
-		traces = append(traces, tr)
-		if v.Stops {
-			for k := 1; k <= r0.ncb; k++ {
-				rk := run(k)
-				check(rk, k)
-				if rk.panicText == "" {
-					ts := tr
-					ts.Ev, ts.Stop = rk.ev, k
-					traces = append(traces, ts)
-				}
-			}
+		for i := nt; i < len(traces); i++ {
+			traces[i].Item = item
 		}
 	}
 	return map[string]any{"fails": fails, "traces": traces}, nil
